@@ -52,6 +52,10 @@ def run(rep, tier, seed, replay=None):
                 or 'compute_hidden_layout' in c])
     _blockreal.real_tree_k(rep, 'C01', binp, seed + 101, 3000 if tier != 'quick' or esc else 300)
     _blockreal.lossy_witness(rep, binp)
+    # ---- wave 7a: the same for the COMPLETE engine (block + flex + grid + leaves; the nine measure slots get traffic)
+    if not replay:
+        from . import _taffyreal
+        _taffyreal.real_tree_k(rep, 'C01', binp, seed + 171, 3000 if tier != 'quick' or esc else 300)
     # ---- whole-tree K (wave 6): the COMPLETE engine -- compute_root_layout + exact-key memo + dispatch on (display, has_children) + the
     # block / flex / grid resumptions + compute_leaf_layout + hidden layout, the definitions C01_taffy_engine_* / C05_taffy_engine_* /
     # C06_taffy_engine_* are about -- vs TaffyTree::compute_layout_with_measure on random mixed trees, one or two passes, every node's
